@@ -138,6 +138,9 @@ def features (S : Schema) (t : Test) : List String :=
   -- locals of one name anywhere in the flattened sample clash; one packet held under two different member names does not
   (let locals := r.map fun x => (if x.2.2.1 then x.2.2.2 else x.2.1).toLower
    if names.contains t.pkt || locals.eraseDups.length < locals.length then ["local-name-clash"] else []) ++
+  -- … the Go, Python and C++ emitters name BOTH kinds of local after the member (`venue := &msg.Cancel{…}` for a match payload)
+  (let locals := r.map fun x => x.2.2.2.toLower
+   if names.contains t.pkt || locals.eraseDups.length < locals.length then ["local-name-clash/member"] else []) ++
   (if r.any (fun x => x.2.2.1 && hasMatch S x.2.1) then ["match-holder-by-value"] else [])
 
 def reportJ (S : Schema) (P : Prog) (fl : Flags) (fuel : Nat) (t : Test) : Json :=
